@@ -379,6 +379,10 @@ def cmd_run(prop, tier, seed):
                         "traces_validated = path witnesses (solver model + predicted observations) replayed natively with "
                         "identical observations, plus natively reproduced counterexamples"),
         assumptions=spec.get("assumptions", []), wall_s=round(wall, 2), violations=len(confirmed))
+    if prop == "SELF":
+        # engine self-check (run by setup): no evidence file; fails only on a translator mismatch
+        print("selfcheck: %d path witnesses replayed natively with identical observations, %d mismatches" % (validated, len(mismatched)))
+        return 3 if (mismatched or validated == 0) else 0
     os.makedirs(os.path.join(ROOT, "evidence"), exist_ok=True)
     json.dump(ev, open(os.path.join(ROOT, "evidence", prop + ".json"), "w"), indent=1)
     print("%s %s: %d paths, %d obligations (%d discharged), %d queries, %.1fs solver, %.1fs wall; confirmed=%d known=%d spurious=%d inconclusive=%d validated=%d" % (
@@ -435,7 +439,7 @@ def main():
     if sys.argv[1] == "setup":
         build_engine()
         print("engine built:", GOSMT)
-        return 0
+        return cmd_run("SELF", "quick", 0)
     if sys.argv[1] == "run":
         prop = sys.argv[2]
         tier = os.environ.get("VERIF_TIER", "quick")
